@@ -205,7 +205,8 @@ def _analyse_reader(repo, ci, fl, un, up, inner, meta):
         enum = _enum_of_field(repo, ci, pname) if dec_ok is None else None
         if enum is not None:
             # an Enum member: str(member) is 'Class.NAME', which ast.literal_eval refuses; the inverse pairs are name <-> Class[...] and value <-> Class(...)
-            by_name = wt.endswith(".name") and txt == f"{enum}[{meta_name}[{key!r}]]"
+            rd = f"{meta_name}[{key!r}]"
+            by_name = wt.endswith(".name") and txt in (f"{enum}[{rd}]", f"{enum}.__members__[{rd}]", f"getattr({enum}, {rd})", f"{enum}.__getitem__({rd})")
             by_value = (wt.endswith(".value)") or wt.endswith(".value")) and txt in (f"{enum}(ast.literal_eval({meta_name}[{key!r}]))", f"{enum}(int({meta_name}[{key!r}]))")
             res.append(("R4", "ok" if by_name or by_value else "bad", un.lineno, f"{ci.name}.{pname} codec", f"{ci.name}: `{pname}` (a member of {enum}) written as `{wt}` and read as `{txt[:70]}` are inverse of each other: {by_name or by_value}",
                         f"every {ci.name} taken through __tensor_flatten__ / __tensor_unflatten__: ValueError (str(Enum) is not a literal)"))
